@@ -216,6 +216,14 @@ func hasTypeLevelView(p *dt.Program) bool {
 				if c.Fn == "View" && !c.HasBody && len(c.Args) == 1 {
 					found = true
 				}
+				// the same call inside Attributes(func(){ ... }) applies to the result type as well
+				if c.Fn == "Attributes" {
+					for _, cc := range c.Body {
+						if cc.Fn == "View" && !cc.HasBody && len(cc.Args) == 1 {
+							found = true
+						}
+					}
+				}
 			}
 		}
 	})
